@@ -265,6 +265,7 @@ package service
 
 //@ func NewPacketHandler
 //@   props C05 C18
+//@   ensures result != nil && as(result, "*service.packetHandler") != nil
 //@   ensures[C05,default-policy-installed] as(result, "*service.packetHandler").targetIPValidator == funcref("net.RequirePublicIP")
 
 // The destination validator installed in a packet handler (a function value).
@@ -567,6 +568,7 @@ package service
 
 //@ func NewStreamHandler
 //@   props C05 C18
+//@   ensures result != nil && as(result, "*service.streamHandler") != nil
 //@   ensures[C05,default-dialer-installed] as(result, "*service.streamHandler").dialer == defaultDialer && as(result, "*service.streamHandler").authenticate == authenticate
 
 // package initialiser: the default TCP dialer validates with RequirePublicIP
